@@ -128,6 +128,8 @@ class Model(object):
     def allowed(self, call):
         kind, arg = call
         ph = self.phase
+        if kind == 'q':
+            return True           # a read-only query: always possible, never changes anything under the rules
         if kind == 'add':
             return ph == 'scheduled' and not self.heights and arg not in self.cards
         if kind == 'bar':
@@ -165,6 +167,9 @@ class Model(object):
     # -- transition (call is known to have been accepted)
     def step(self, call, impl_state=None):
         kind, arg = call
+        if kind == 'q':
+            self.qsteps = getattr(self, 'qsteps', 0) + 1
+            return
         if kind == 'add':
             self.order.append(arg)
             self.cards[arg] = []
@@ -188,7 +193,7 @@ class Model(object):
             if kind == '-':
                 self.irregular += 1           # the rules require a jump or a retirement: fringe
             alive = list(self.jo_alive)
-            if kind in 'xr':
+            if kind in 'xr' and b in alive:
                 alive.remove(b)
             self.jo_alive = tuple(alive)
             self.jo_acted = tuple(self.jo_acted) + (b,)
